@@ -50,6 +50,53 @@ func porScenario(id string, sc *dagh.Scenario, deadline time.Time, noReduce bool
 	return "", nil, 0, st, obs, ""
 }
 
+// scScenario explores one scenario without any deviation bound, with visited-state pruning, for every
+// map-rotation policy; returns the first violation, statistics and the set of observations.
+func scScenario(id string, sc *dagh.Scenario, deadline time.Time, maxStates int64) (msg string, choices []int, policy int, st explore.SCStats, obs map[string]bool, toolErr string) {
+	obs = map[string]bool{}
+	for pol := 0; pol < sc.N; pol++ {
+		ex := &explore.SCExplorer{Policy: pol, Deadline: deadline, MaxStates: maxStates}
+		ex.Run = func(c *explore.SCChooser) string {
+			fs, o, _, r := dagh.ExecutePOR(sc, c, nil)
+			if r.Status == "pruned" {
+				// a cut-off execution is judged as far as it got: the oracles evaluated during the run (enter, exit)
+				// have spoken; the end-of-run oracles belong to the execution that reached this state first
+				var mine []string
+				for _, f := range fs {
+					if propMatches(id, f) && f.Known == "" && !f.AtEnd {
+						mine = append(mine, f.Msg)
+					}
+				}
+				return strings.Join(mine, "; ")
+			}
+			obs[o.Key()] = true
+			var mine []string
+			for _, f := range fs {
+				if propMatches(id, f) && f.Known == "" {
+					mine = append(mine, f.Msg)
+				}
+			}
+			return strings.Join(mine, "; ")
+		}
+		v := ex.Explore()
+		st.Execs += ex.Stats.Execs
+		st.States += ex.Stats.States
+		st.Pruned += ex.Stats.Pruned
+		st.Complete += ex.Stats.Complete
+		if ex.Stats.MaxPoints > st.MaxPoints {
+			st.MaxPoints = ex.Stats.MaxPoints
+		}
+		st.Capped = st.Capped || ex.Stats.Capped
+		if ex.ToolError != "" {
+			return "", nil, pol, st, obs, ex.ToolError
+		}
+		if v != nil {
+			return v.Msg, v.Choices, pol, st, obs, ""
+		}
+	}
+	return "", nil, 0, st, obs, ""
+}
+
 // porDebug prints per-scenario statistics of the sleep-set mode (development aid).
 func porDebug(id string, limit int) int {
 	n := 0
@@ -72,6 +119,36 @@ func porDebug(id string, limit int) int {
 		secs, _ := strconv.Atoi(os.Getenv("POR_SECS"))
 		if secs == 0 {
 			secs = 60
+		}
+		if os.Getenv("POR_STATECACHE") != "" {
+			msg, _, _, st, obs, terr := scScenario(id, sc, time.Now().Add(time.Duration(secs)*time.Second), 0)
+			line := fmt.Sprintf("STATECACHE states=%d execs=%d pruned=%d complete=%d maxpoints=%d obs=%d capped=%v %.1fs", st.States, st.Execs, st.Pruned, st.Complete, st.MaxPoints, len(obs), st.Capped, time.Since(t0).Seconds())
+			if os.Getenv("POR_SELFCHECK") != "" {
+				// against the sleep-set exploration (complete when it is not capped)
+				_, _, _, st2, obs2, _ := porScenario(id, sc, time.Now().Add(60*time.Second), false, 0)
+				missing, extra := 0, 0
+				for k := range obs2 {
+					if !obs[k] {
+						missing++
+					}
+				}
+				for k := range obs {
+					if !obs2[k] {
+						extra++
+					}
+				}
+				verdict := "EQUAL"
+				if missing > 0 {
+					verdict = "STATECACHE-MISSES-OBSERVATIONS"
+				} else if extra > 0 && !st2.Capped {
+					verdict = "SLEEPSET-MISSES-OBSERVATIONS"
+				} else if extra > 0 {
+					verdict = "superset(of capped sleep-set run)"
+				}
+				line += fmt.Sprintf(" | sleepset execs=%d obs=%d capped=%v missing=%d extra=%d %s", st2.Execs, len(obs2), st2.Capped, missing, extra, verdict)
+			}
+			fmt.Printf("%s  %s  %s %s\n", line, sc, msg, terr)
+			continue
 		}
 		msg, _, _, st, obs, terr := porScenario(id, sc, time.Now().Add(time.Duration(secs)*time.Second), false, 200000000)
 		line := fmt.Sprintf("execs=%d pruned=%d maxpoints=%d obs=%d capped=%v %.1fs", st.Execs, st.Pruned, st.MaxPoints, len(obs), st.Capped, time.Since(t0).Seconds())
